@@ -75,6 +75,9 @@ type Sim struct {
 	CArgs        int // Go objects handed to C by tasks
 	CWrites      int // of which modified by C
 	cobjs        []cobj
+	// last modification by C of a Go object that another task also handed to C (0 = none):
+	// Go source lines of the two cgo calls and the size of the object
+	CWSite, CWOther, CWBytes int
 	seq          int64
 }
 
@@ -621,6 +624,7 @@ func flushC(t *task) {
 						// (println: no fmt / sync.Pool in norace code)
 						println("SIMRT-C-WRITE: the C call at Go line", w.site, "of task", t.id, "modified a Go object of", w.n,
 							"bytes that task", o.task, "also handed to C at Go line", o.site)
+						s.CWSite, s.CWOther, s.CWBytes = w.site, o.site, w.n
 						break
 					}
 				}
